@@ -338,6 +338,17 @@ def _check_codec(name, mod, fmt, x, c):
     back = mod.loads(doc)
     if len(back) != 2:
         return "%s: dumps/loads of a two-item document gives %d items" % (name, len(back))
+    # single vs list API: an item of a document is what the single-item functions give for it
+    one = project(eds_obs(x2), True, True, fmt)
+    one["nodes"] = sorted(one["nodes"], key=lambda n: n["id"])
+    for b in back:
+        gb = project(eds_obs(b), True, True, fmt)
+        gb["nodes"] = sorted(gb["nodes"], key=lambda n: n["id"])
+        if gb != one:
+            for key in one:
+                if gb[key] != one[key]:
+                    return "%s: an item read from a document differs from decode(encode(item)) in %s: %r vs %r" % (
+                        name, key, gb[key], one[key])
     if fmt == "native" and mod.dumps(back, properties=p, lnk=l, indent=indent, **kw) != doc:
         return "%s: dumps(loads(doc)) differs from doc" % name
     return untyped
@@ -375,6 +386,14 @@ def oracle(c):
             back = mod.loads(doc)
             if len(back) != len(xs):
                 return "%s: a document of %d items reads back as %d" % (name, len(xs), len(back))
+            for x, b in zip(xs, back):
+                one = project(eds_obs(mod.decode(mod.encode(x, properties=c["p"], lnk=c["l"], indent=c["indent"], **kw))),
+                              True, True, fmt)
+                gb = project(eds_obs(b), True, True, fmt)
+                one["nodes"] = sorted(one["nodes"], key=lambda n: n["id"])
+                gb["nodes"] = sorted(gb["nodes"], key=lambda n: n["id"])
+                if gb != one:
+                    return "%s: an item read from a document differs from decode(encode(item))" % name
             if fmt == "native" and mod.dumps(back, properties=c["p"], lnk=c["l"], indent=c["indent"], **kw) != doc:
                 return "%s: dumps(loads(doc)) differs from doc" % name
         return None
